@@ -1,5 +1,5 @@
 SPECIFICATION Spec
-CONSTANT Watch = {"LastSet", "Isolation", "RemovedAbsent", "NotFoundIgnored", "Mirror", "MirrorOnError", "MirrorConcurrent", "NetOrder", "NoEarlyExpiry", "FreshKept", "ExpiryOnlyGarden", "ExpiryDue", "ExpiryStamp", "AllowedExact", "KeyEncoding", "StatsTrue", "ListExact"}
+CONSTANT Watch = {"LastSet", "Isolation", "RemovedAbsent", "NotFoundIgnored", "Mirror", "MirrorOnError", "MirrorConcurrent", "NetOrder", "NoEarlyExpiry", "FreshKept", "ExpiryOnlyGarden", "ExpiryDue", "ExpiryStamp", "AllowedExact", "KeyEncoding", "StatsTrue", "ListExact", "SessionTable", "GwIsolation", "RenewSame", "CreateResult", "NotFoundError", "ReleaseIdempotent", "LeaseStamp", "IndexExact", "GwListExact", "GwNoEarlyExpiry", "ExpiredCleaned", "GraceFlag", "NeedsAuth", "CallbackOnce", "GwStatsTrue"}
 INVARIANTS Report
 VIEW View
 CHECK_DEADLOCK FALSE
